@@ -560,12 +560,17 @@ pub fn check(a: &CheckArgs, meta: &CheckMeta) -> i32 {
         "wall_s": wall,
         "violations": new_violations,
     });
-    let _ = std::fs::create_dir_all(format!("{VERIF_DIR}/evidence"));
-    std::fs::write(
-        format!("{VERIF_DIR}/evidence/{}.json", a.property),
-        serde_json::to_string_pretty(&ev).unwrap(),
-    )
-    .unwrap();
+    let ev_path = match std::env::var("VERIF_EVIDENCE_PART") {
+        Ok(part) if !part.is_empty() => {
+            let _ = std::fs::create_dir_all(format!("{VERIF_DIR}/evidence/parts"));
+            format!("{VERIF_DIR}/evidence/parts/{}.{part}.json", a.property)
+        }
+        _ => {
+            let _ = std::fs::create_dir_all(format!("{VERIF_DIR}/evidence"));
+            format!("{VERIF_DIR}/evidence/{}.json", a.property)
+        }
+    };
+    std::fs::write(ev_path, serde_json::to_string_pretty(&ev).unwrap()).unwrap();
     println!(
         "check {} tier={} seed={} runs={} distinct_nontrivial={} distinct_interleavings={} sim_time={}s wall={:.1}s violations={} known={}",
         a.property,
@@ -611,6 +616,7 @@ pub fn meta_for(property: &str) -> CheckMeta {
         "C01" => "plan = f(seed): swarm config x app scripts x datagram fault plan; non-trivial = at least one fault fired, stream bytes were read after the first fault and at least one stream reached clean EOF; distinct = distinct hash of the (endpoint, tx/rx, space) event order plus per-datagram fates",
         "C02" => "plan = f(seed) from three families (finite faults incl. blackholes / permanent blackhole / all-blocking configurations); non-trivial = faults fired and (finite: work completed after faults; blackhole: a connection existed when the blackhole started; block: a *_BLOCKED frame was sent); distinct = event-order hash",
         "C03" => "plan = f(seed): small windows / stream limits, resets, stop_sending, loss; non-trivial = the sender was actually limited (a *_BLOCKED frame was sent or a RESET_STREAM was sent); distinct = event-order hash",
+        "C04" => "plan = f(seed): the byzantine rule catalogue (33 rules) is enumerated by seed modulo its length (fault_enumeration) x random attacker role, history position and surrounding workload/loss (exploration); non-trivial = the victim processed the offending packet; distinct = event-order hash; the advertised-credit bound is evaluated in every run",
         "C06" => "plan = f(seed): family c06.forge injects only additive faults (bit-flipped / truncated / extended / spliced copies IN ADDITION to the genuine datagram, replays incl. from a third address, duplicates, unattributable and spoofed garbage) so every connection must survive and complete; family c06.mixed adds destructive faults (oracle 5 off); non-trivial = a non-genuine datagram was delivered to an endpoint and a stream completed; distinct = event-order hash",
         "C08" => "plan = f(seed): loss incl. ACK-only blackouts, reordering, duplication, delay; non-trivial = a fault fired and an ACK with gaps was sent or a packet was declared lost; distinct = event-order hash",
         "C12" => "plan = f(seed): send/finish/reset/stop_sending/close in all orders, hard application close, loss up to 30 %; non-trivial = RESET_STREAM/STOP_SENDING/CONNECTION_CLOSE was sent and a fault fired or a packet was lost; distinct = event-order hash",
